@@ -40,6 +40,13 @@ def run(ctx: RuleContext):
     ctx.sub(check_install_pairing, ctx)
     ctx.sub(check_checker_flow, ctx)
     ctx.sub(check_front_ends, ctx)
+    # C11.6: the redirection of importlib's cache path (part of loading an instrumented module) must not
+    # outlive the load: otherwise modules imported later -- outside the named set, after uninstall() -- are
+    # read from the instrumented cache (C18.3 / C18.5 for the loader's patch)
+    from .c18 import check_manual_patches, check_patch_extent
+
+    ctx.reuse("C11.6", check_manual_patches, ctx)
+    ctx.reuse("C11.6", check_patch_extent, ctx)
 
 
 # ------------------------------------------------------------------------ C11.1
